@@ -547,6 +547,39 @@ Theorem C05_precedence_located_linked :
 Proof. exact precedence_located_linked. Qed.
 Print Assumptions C05_precedence_located_linked.
 
+(* ... the other two spellings need no normalisation at all: a TR number whose card holds O and a
+   matrix B with exactly orthonormal rows places the universe at B (p - O); three numbers (starred
+   or not, all zero included) place it at p - (a1, a2, a3) *)
+Theorem C05_precedence_located_linked_spellings :
+  forall (val : Z -> Rdefinitions.R) (norm : bool -> list Z -> list Z),
+  (forall star ps, norm star ps <> []) ->
+  (forall table mat rho geom imp u star univ trid n card trcl (cl : cell motion)
+          (s : state motion wfentry) du key p c r (o : C04.Spec.R3) (b : C04.Vec.M3 Rdefinitions.R),
+     (forall k cd, dget k table = Some cd -> cd <> []) ->
+     cell_of_keywords motion (mk_v val) norm table mat rho geom imp u (Some (star, univ, trid, [n])) trcl
+       = Ok cl ->
+     dget trid table = Some card -> map val card = C04.ProofsCompose.tr12 o b ->
+     C04.Spec.rows_orthonormal b ->
+     dget key (s_cells s) = Some cl ->
+     LocW motion wfentry C04.Spec.R3 m_empty m_inv m_sense s du key p (key :: c :: r) true ->
+     LocW motion wfentry C04.Spec.R3 m_empty m_inv m_sense s du c (C04.Spec.to_aux o b p) (c :: r) true) /\
+  (forall table mat rho geom imp u star univ trid a1 a2 a3 trcl (cl : cell motion)
+          (s : state motion wfentry) du key p c r,
+     val 0 = Rdefinitions.IZR 0 -> val 1 = Rdefinitions.IZR 1 ->
+     (forall k cd, dget k table = Some cd -> cd <> []) ->
+     cell_of_keywords motion (mk_v val) norm table mat rho geom imp u
+                      (Some (star, univ, trid, [a1; a2; a3])) trcl = Ok cl ->
+     dget key (s_cells s) = Some cl ->
+     LocW motion wfentry C04.Spec.R3 m_empty m_inv m_sense s du key p (key :: c :: r) true ->
+     LocW motion wfentry C04.Spec.R3 m_empty m_inv m_sense s du c
+          (C04.Spec.to_aux (C04.Vec.mkV (val a1) (val a2) (val a3)) idm3 p) (c :: r) true).
+Proof.
+  intros val norm Hn. split.
+  - exact (precedence_located_linked_number val norm Hn).
+  - exact (precedence_located_linked_translation val norm Hn).
+Qed.
+Print Assumptions C05_precedence_located_linked_spellings.
+
 (* ===== the FILL loop and inlining from ANY table ================================================
    (fresh counters, empty cache, no provenance; the table need not come from the TRCL loop) *)
 Theorem C05_fill_inline_located :
